@@ -105,6 +105,9 @@ def run(ctx):
                          rssi=rng.choice([-128, -1, 0, 127, rng.randint(-128, 127)]), sender=rng.getrandbits(16), binding=rng.getrandbits(8),
                          addr=rng.getrandbits(8), payload=bytes(rng.getrandbits(8) for _ in range(plen)), eui64=[rng.getrandbits(8) for _ in range(8)],
                          ts=rng.getrandbits(32))
+                if rng.random() < 0.12:
+                    v["sender"] = OWN          # a message whose sender is the node's own address is a message like any other
+                    ctx.count("sender-is-own-address")
                 cb_seq = rng.getrandbits(8)
                 if rng.random() < 0.15:
                     # a command abandoned by its caller (cancelled while waiting for the reply), then a callback that happens
